@@ -72,8 +72,14 @@ fn c03() -> Outcome {
         let want = ref_val(&f, &full).unwrap();
         match g.evaluate(&st(&rest)) { Ok((v, _)) => if !close(v, want) { fail!(n, "partial_evaluate then evaluate gives {v}, the original at the combined assignment gives {want}: f={f:?} fixed={fixed:?} rest={rest:?}"); }, Err(e) => fail!(n, "evaluating the partially evaluated function failed ({e}): f={f:?} fixed={fixed:?} result={g:?}") }
         // instance level, in one and in two steps
-        let i = rand_instance(&mut r, 3);
+        let mut i = rand_instance(&mut r, 3);
         let s = rand_instance_state(&mut r, &i);
+        // half of the instances carry a dependent variable (as left behind by Instance::substitute): id 77 := a random function of the other variables
+        if r.chance(1, 2) {
+            let free: Vec<u64> = i.decision_variables.iter().map(|v| v.id).collect();
+            i.decision_variables.push(dv(77, Kind::Continuous, None));
+            i.decision_variable_dependency.insert(77, rand_function(&mut r, &free, 2, false));
+        }
         let fixed: HashMap<u64, f64> = s.iter().filter(|_| r.chance(1, 2)).map(|(k, v)| (*k, *v)).collect();
         let fixed2: HashMap<u64, f64> = s.iter().filter(|(k, _)| !fixed.contains_key(k) && r.chance(1, 3)).map(|(k, v)| (*k, *v)).collect();
         let rest: HashMap<u64, f64> = s.iter().filter(|(k, _)| !fixed.contains_key(k) && !fixed2.contains_key(k)).map(|(k, v)| (*k, *v)).collect();
@@ -82,6 +88,15 @@ fn c03() -> Outcome {
         let mut j = i.clone();
         if let Err(e) = j.partial_evaluate(&st(&fixed)) { fail!(n, "Instance::partial_evaluate failed: {e}"); }
         if let Err(e) = j.partial_evaluate(&st(&fixed2)) { fail!(n, "second Instance::partial_evaluate failed: {e}"); }
+        // "the partially evaluated object no longer mentions any fixed variable": objective, active and removed constraints, and the dependency functions
+        {
+            let mut fs: Vec<(String, &Function)> = vec![];
+            if let Some(f) = j.objective.as_ref() { fs.push(("objective".into(), f)); }
+            for c in &j.constraints { if let Some(f) = c.function.as_ref() { fs.push((format!("constraint {}", c.id), f)); } }
+            for rc in &j.removed_constraints { if let Some(c) = rc.constraint.as_ref() { if let Some(f) = c.function.as_ref() { fs.push((format!("removed constraint {}", c.id), f)); } } }
+            for (k, f) in &j.decision_variable_dependency { fs.push((format!("dependency of variable {k}"), f)); }
+            for (what, f) in fs { if let Some(id) = ref_ids(f).into_iter().find(|id| fixed.contains_key(id) || fixed2.contains_key(id)) { fail!(n, "after fixing {fixed:?} then {fixed2:?} the {what} still mentions the fixed variable {id}: {f:?}"); } }
+        }
         for v in &j.decision_variables { let w = fixed.get(&v.id).or(fixed2.get(&v.id)); if v.substituted_value != w.copied() { fail!(n, "variable {} carries substituted_value {:?}, expected {:?} after fixing {fixed:?} then {fixed2:?}", v.id, v.substituted_value, w); } }
         let (got, _) = match j.evaluate(&st(&rest)) { Ok(x) => x, Err(e) => fail!(n, "evaluating the partially evaluated instance at the remaining values failed ({e}); fixed {fixed:?} then {fixed2:?}, rest {rest:?}") };
         if !close(got.objective, want.objective) || got.feasible != want.feasible || got.feasible_relaxed != want.feasible_relaxed { fail!(n, "after fixing {fixed:?} then {fixed2:?}: objective/feasible/relaxed {}/{}/{:?}, original at the combined assignment {}/{}/{:?}", got.objective, got.feasible, got.feasible_relaxed, want.objective, want.feasible, want.feasible_relaxed); }
